@@ -319,6 +319,7 @@ def explore(cfg, collect):
         last_sleep_state = {}
         pruned = False
         fin = []
+        eager_here = 0
         try:
             # the root thread is parked before its first instruction; give it
             # the baton once so that it reaches its first scheduling point
@@ -343,7 +344,8 @@ def explore(cfg, collect):
                         break
                     eager[0].step()
                     nsteps_eager[0] += 1
-                    if nsteps_eager[0] > 200000:
+                    eager_here += 1
+                    if eager_here > 200000:       # per execution
                         raise RuntimeError('eager steps do not terminate')
                 en = [a for a in acts if a.enabled()]
                 thr_alive = [a for a in acts if isinstance(a, S.TActor) and not a.done]
